@@ -27,7 +27,7 @@ CLAIMED = {
    ref='DESIGN.md 5 (C06)',
    note='Trusted: the independent parser/writer in scen/ref/json_ref.h; texts are NUL-free (the API is C-string based).'),
  'C16': dict(
-   technique='deterministic simulation: typed value sequences with byte-order switches written through the real StreamBuffer, File (simulated disk) and Socket (simulated network with seeded fragmented reads, short sends, latency, small send buffers; bytes captured on the wire) operators and read back through the matching readers; reference serializer as oracle for the captured bytes; bit-exact read-back oracle',
+   technique='deterministic simulation: typed value sequences with byte-order switches written through the real StreamBuffer, File (simulated disk) and Socket (simulated network with seeded fragmented reads, short sends, latency, small send buffers; bytes captured on the wire) operators and read back through the matching readers; reference serializer as oracle for the captured bytes; bit-exact read-back oracle; two or three writers at once, each on its own connection or file, with transfers as schedule points (endian_concurrent)',
    text='Seeded search over sequences of up to 64 typed items (all scalar types with extreme, NaN-payload and random bit patterns, strings, arrays of length 0..100 of each element type) with BIG/LITTLE/NATIVE switches at arbitrary points, in three legs. The simulator contributes the File and Socket legs (partial transfers: Socket >> x must block until sizeof(x) bytes arrived); per-type byte layout is input-only and rides along. Found and fixed one genuine defect (native-order Array<T> writes). Evidence, not proof.',
    ref='DESIGN.md 2.5-2.6, 5 (C16)',
    note='Trusted: the reference serializer in the scenario (little-endian host assumed for NATIVE), disk and network stubs.'),
@@ -42,13 +42,13 @@ CLAIMED = {
    ref='DESIGN.md 2.6, 5 (C17), 5x',
    note='Trusted: VFS stub semantics (appendix A), glibc stdio is real; process crashes with loss of unflushed buffers are not injected (no property quantifies over crash points); BOM texts are CR-free (the UTF-16 reader folds CRLF, fenced out).'),
  'C11': dict(
-   technique='deterministic simulation with fault injection: the real WebSocket client and server on the simulated TCP stub (seeded fragmentation, short sends, latency, small send buffers) against each other and against an independent RFC 6455 framer/deframer with independent SHA-1/Base64 (both roles; 1-4 fragments, mask keys with zero bytes, pings before messages and between fragments, non-minimal length forms); hostile frame streams with reserved opcodes, RSV bits and absurd 64-bit lengths, cut at every offset; sequence-equality oracle per direction, framing-rule oracle on emitted bytes, AddressSanitizer, bounded termination',
-   text='Seeded search over message plans (lengths boundary-biased around 125/126/127 and 65535/65536/65537, to 70000 quick and 4 MiB thorough) x fragmentations x network behaviour x schedules. Found and fixed two genuine defects (64-bit lengths cast to int; ping between fragments ends the message). Evidence, not proof.',
+   technique='deterministic simulation with fault injection: the real WebSocket client and server on the simulated TCP stub (seeded fragmentation, short sends, latency, small send buffers) against each other and against an independent RFC 6455 framer/deframer with independent SHA-1/Base64 (both roles; 1-4 fragments, mask keys with zero bytes, pings before messages and between fragments, non-minimal length forms); hostile frame streams with reserved opcodes, RSV bits and absurd 64-bit lengths, cut at every offset; sequence-equality oracle per direction (messages kept by the receiver re-read after later receives), framing-rule oracle on emitted bytes, AddressSanitizer, bounded termination; plus, under access-granular preemption (flavour T: every instrumented memory access a schedule point), two or three concurrent sessions - independent framer clients that verify the accept key, and the library client - on one server',
+   text='Seeded search over message plans (lengths boundary-biased around 125/126/127 and 65535/65536/65537, to 70000 quick and 4 MiB thorough) x fragmentations x network behaviour x schedules. Found and fixed two genuine defects (64-bit lengths cast to int; ping between fragments ends the message). Concurrent sessions under per-access preemption cover state shared between connections inside code without system calls. Evidence, not proof.',
    ref='DESIGN.md 2.5, 5 (C11)',
    note='Trusted: the independent framer and hash in scen/ref (self-tested against python hashlib/base64 and the RFC sample key), the network stub, AddressSanitizer.'),
  'C09': dict(
-   technique='deterministic simulation with fault injection: hostile raw peers on the simulated TCP stub send generated and mutated HTTP byte streams in seeded fragments, cut at every offset (peer_close@k), stalled below and beyond the library timeouts, under seeded thread schedules; the real HttpServer/HttpRequest/Socket/File code runs under AddressSanitizer; oracles: no memory error, no ".." in the handler path, no file access outside the web root (disk-stub access log + canaries), exact fields for well-formed streams, prefix-consistency for cut ones, bounded termination (60 simulated s after the last peer closed); enumerated request targets over {. / %2e %2f %25 a}',
-   text='Seeded search over byte streams x cut offsets x fragmentations x schedules. Found and fixed five genuine defects on the unchanged tree (infinite loop on early close, out-of-bounds Range parsing, two negative-length substrings, web-root escape by a target without leading slash). Request targets are enumerated to length 6 (quick) / 8 (thorough) through a single-thread fast path rather than to length 12; Url()/Url::decode totality is input-only and rides along. Evidence, not proof.',
+   technique='deterministic simulation with fault injection: hostile raw peers on the simulated TCP stub send generated and mutated HTTP byte streams in seeded fragments, cut at every offset (peer_close@k), stalled below and beyond the library timeouts, under seeded thread schedules; the real HttpServer/HttpRequest/Socket/File code runs under AddressSanitizer; oracles: no memory error, no ".." in the handler path, no file access outside the web root (disk-stub access log + canaries), exact fields for well-formed streams in every legal header spelling (no blank / blanks / tab after the colon, folded values) and for two requests sent back to back, no dispatch of a head with a colon-less line unless complete, prefix-consistency for cut ones, bounded termination (60 simulated s after the last peer closed); enumerated request targets over {. / %2e %2f %25 a}',
+   text='Seeded search over byte streams x cut offsets x fragmentations x schedules. Found and fixed ten genuine defects on the unchanged tree (infinite loop on early close, out-of-bounds Range parsing, two negative-length substrings, web-root escape by a target without leading slash, a NUL in the target; header value without blank after the colon, folded header losing lines, body swallowing a pipelined request, colon-less head dispatched without body). Request targets are enumerated to length 6 (quick) / 8 (thorough) through a single-thread fast path rather than to length 12; Url()/Url::decode totality is input-only and rides along. Evidence, not proof.',
    ref='DESIGN.md 2.5-2.6, 5 (C09)',
    note='Trusted: network and disk stubs, AddressSanitizer, the harness HTTP writer; EINTR and TCP-level loss/duplication are not injected (the kernel guarantees streams against them).'),
  'C10': dict(
@@ -68,7 +68,7 @@ CLAIMED = {
    note='Trusted: the pthread mutex model, the heap table in sim/heap.cpp, sequential consistency (asl uses full-barrier __sync builtins), clang -O1 code shape; accesses inside uninstrumented libc (memcpy/memmove) are not preemption points.'),
  'C13': dict(
    technique='deterministic simulation: real threads serialised by a seeded scheduler (random walk / PCT / run-to-block) preempting at every instrumented memory access (custom __tsan_* runtime) and every pthread/sem/clock call; simulated clock with jumps; exactly-once, visibility, conservation and bounded-liveness oracles; ddmin-shrunk replay files',
-   text='Seeded search over schedules (access-granular preemption) and small plans for Thread start/join (subclass and lambda), parallel_for over all (i0,i1,n) in [-3,40]^2 x [1,12] with boundary bias, parallel_invoke, ThreadGroup, Semaphore and Condition under the documented protocol, with spurious wake-ups, arbitrary wake order and wall-clock jumps. Evidence, not proof.',
+   text='Seeded search over schedules (access-granular preemption) and small plans for Thread start/join (subclass and lambda), parallel_for over all (i0,i1,n) in [-3,40]^2 x [1,12] with boundary bias plus short ranges at both ends of int (flavour T is built with -fwrapv; found and fixed the index overflow near INT_MAX), parallel_invoke, ThreadGroup, Semaphore and Condition under the documented protocol, with spurious wake-ups, arbitrary wake order and wall-clock jumps. Evidence, not proof.',
    ref='DESIGN.md 2.2-2.4, 5 (C13)',
    note='Trusted: the pthread/semaphore/clock model in sim/wrap_pthread.cpp (faithful but a stub), sequential consistency, clang -O1 code shape.'),
 }
@@ -108,7 +108,7 @@ def main():
         'setup_cmd': './check build',
         'hooks': {
             'guard': 'ASL_VERIF',
-            'enable': 'the verification Makefile compiles /repo/src/*.cpp and the scenarios with -DASL_VERIF (clang++ -O1 -g, -fsanitize=address for flavour A, -fsanitize=thread instrumentation linked against sim/tsan_abi.cpp for flavour T) and links with -Wl,--wrap seams; no cmake involved',
+            'enable': 'the verification Makefile compiles /repo/src/*.cpp and the scenarios with -DASL_VERIF (clang++ -O1 -g, -fsanitize=address for flavour A, -fwrapv and -fsanitize=thread instrumentation linked against sim/tsan_abi.cpp for flavour T) and links with -Wl,--wrap seams; no cmake involved',
             'baseline_off_cmd': 'cmake -G Ninja -B /repo/_build -DASL_TESTS=ON /repo && cmake --build /repo/_build && ctest --test-dir /repo/_build -j8 --timeout 900',
             'source_commits': hooks,
             'add_only': True,
